@@ -1,7 +1,17 @@
 """C02 - No history of snapshot/delete/clean ever damages a remaining snapshot."""
-from specs import gc
+from specs import gc, snapbody
 
 LEVEL = 'proof'
-UNITS = [gc.delete_unit('C02'), gc.clean_unit('C02')]
-TRUSTED = []
-ASSUMPTIONS = []
+UNITS = [gc.delete_unit('C02'), gc.clean_unit('C02'), snapbody.download_snapshot_unit('C02')]
+BOUNDED = []
+TRUSTED = [
+    'vf symbolic executor (/verif/vf): encoding of the Python subset (DESIGN 2.2)',
+    'z3 5.1 (API + z3-new CLI), cvc5 1.0.3 (strings)',
+]
+ASSUMPTIONS = ['backend interface (upload = map update, delete = idempotent removal, list_files(prefix) = live names with the prefix, each once)', '_load_snapshots yields each listed, own-family snapshot once (as_completed/run_in_executor deliver each item once)', 'loaded snapshots have pairwise distinct names (premise: the snapshot area contains only objects written by replicat; A-collision)', 'loc(d) = contract of _chunk_digest_to_location (proved in C08/C14 units)', 'destructive commands are sequential (premise of the property); restore of the remaining snapshots is C01 on top of the reference invariant']
+MANIFEST = {
+    'text': 'Deductive proof, for all sets of loaded snapshots and all chunk tables, that delete_snapshots and clean never hand a location to the backend delete that a remaining (not named / any) loaded snapshot references, that they refuse before any deletion when a requested name is missing or foreign, and that foreign-family snapshots are never loaded.',
+    'note': 'Trusted: vf engine, SMT solvers, the assumed backend/asyncio contracts listed in evidence.assumptions. Histories are handled by the inductive reference invariant: each command preserves it (per-command contracts), composition over histories is the induction stated in DESIGN 6/C02.',
+    'technique': 'contract-based deductive verification: sidecar contracts + loop invariants on the real functions, VCs by symbolic execution of the AST, discharged by z3/cvc5',
+    'design_ref': 'DESIGN.md 6/C02',
+}
